@@ -53,6 +53,41 @@ CHECKS = {
             'permuted instances; checks lengths, ranges, injectivity on both sides, K-NN membership, bound, no exception.',
             'Invariants only - does not require a maximal matching.',
             'DESIGN.md section 3 / C17'),
+    'C01': ('I', 'bounded-exhaustive input x configuration enumeration, statement oracle',
+            'Every 4-level sequence of length 3..6 (quick) / 3..7 plus 3-level 8..9 (thorough) and the structured grid F_B, '
+            'each against the 288-point option grid (quick: every 3rd/6th/16th configuration per signal with a rotating '
+            'offset; thorough: the full grid), run through emd.sift.sift; reconstruction and non-oscillatory-residual '
+            'oracle taken from the statement; seams classify each extraction as stop / vanish-mid-extraction / final so '
+            'that every exit path is shown to be populated.',
+            'Runs ended by the sift threshold are exempt as the statement says; EMDSiftCovergeError is counted, not judged.',
+            'DESIGN.md section 3 / C01'),
+    'C02': ('I', 'bounded-exhaustive input x configuration x transform enumeration, metamorphic oracle',
+            'Non-final F_A signals and F_B x 24 option sets x 13 exact (dyadic, -1) and 4 inexact scale factors and time '
+            'reversal, for get_next_imf and sift; mask_sift under positive rescaling (abs mode as negative control). '
+            'Bit equality for exact factors, 1e-9 otherwise outside a guard band measured at seams.',
+            'sift_thresh (absolute, signal units) is rescaled with the signal; guard-band exclusions are counted in the evidence.',
+            'DESIGN.md section 3 / C02'),
+    'C03': ('I', 'bounded-exhaustive input x cap enumeration, prefix + peeling + shape oracles',
+            'For every non-final F_A signal and F_B signal x option sets: all caps 1..ncols+2 of sift and mask_sift compared '
+            'bit-for-bit with the uncapped prefix, every column re-derived by (masked) single-IMF extraction from the '
+            'externally computed residual; ensemble / complete-ensemble / second-layer variants over caps {1..6, None} x '
+            'ensemble sizes x noise levels x modes for shape, cap and finiteness.',
+            'Pools replaced by an in-process serial pool here (worker placement is C07/C08); RNG seeded per call.',
+            'DESIGN.md section 3 / C03'),
+    'C04': ('I', 'bounded-exhaustive input x configuration enumeration vs. reference iterate sequence',
+            'F_A (length 3..6 / 3..7), F_B and the residuals left after a first extraction (non-initial states) x stop rules '
+            'x thresholds x step sizes x iteration limits x envelope configurations; every get_next_imf call is compared '
+            'with a reference iterate sequence (value, number of envelope evaluations, continue flag, convergence error, '
+            'energy threshold).',
+            'Reference envelope stage = the repository\'s own interp_envelope (C05 judges it); boundary iterate max_iters+1 may return or raise.',
+            'DESIGN.md section 3 / C04'),
+    'C05': ('I', 'bounded-exhaustive input x configuration enumeration vs. independent reference',
+            'Every 3-level sequence of length 1..8 (quick) / 1..10 (thorough) and F_B x pad widths 0..5 x parabolic on/off x 3 '
+            'interpolants x 3 envelope modes: extrema against an own strict-extremum finder and an own implementation of '
+            'the mirror-padding rule, envelopes against the scipy interpolant rebuilt from the reference extrema and '
+            'evaluated at 0..N-1.',
+            'Exact padding reference when pad_width < #extrema, structural invariants when it is clipped.',
+            'DESIGN.md section 3 / C05'),
 }
 
 NOT_YET = 'check not built yet in this round (planned, see DESIGN.md section 3)'
